@@ -5,8 +5,9 @@ from .. import core, servesuite
 
 def run(R, ctx):
     servesuite.run_serve_suite(R, ctx, "select", (120, 2500),
-                               "SELECT arguments: 0 1 2 15 16 -1 x '' '1 ' +1 01 99999999999999999999 with database counts 1, 2, 16.",
-                               pubsub=False, damage=False)
+                               "SELECT arguments: 0 1 2 15 16 -1 x '' '1 ' +1 01 99999999999999999999 with database counts 1, 2, 16. Argument sweep (16, 2 and 1 databases): every one-byte "
+                               "argument, every two-digit argument, signed / padded / non-decimal / non-ASCII-digit / overflowing spellings; after each probe a write shows which database the connection is in.",
+                               pubsub=False, damage=False, select_sweep=(16, 2, 1))
     rule = R.rule
     servesuite.run_serve_suite(R, ctx, "select-reconnect", (120, 2500),
                                "The same SELECT-heavy sessions with protocol damage and client closes, every ended connection being replaced by a new "
